@@ -146,6 +146,8 @@ def run(tier, seed):
     # model's for all inputs; a failure is reported when the check finishes unless a stage below finds a
     # concrete failing input
     gen_tie.gate(chk, ['cap_strat', 'build_test_threads', 'runner_settings', 'no_capture_serial', 'threads_required'], gate)
+    # glue code (DESIGN 11.7, third round): the (weight, group) handed to future_queue_grouped for each selected test
+    gen_tie.gate(chk, ['execute_item'], gate, family="glue")
     binary, err = vlib.build_harness()
     if binary is None:
         chk.violation("broken-obligation", "harness-build", dict(error=err), no_input=True)
